@@ -134,7 +134,7 @@ func writeValue(w io.Writer, v interface{}, sdl bool, depth, indent int) (err er
 				_, err = w.Write([]byte{'"'})
 			}
 		default:
-			_, err = w.Write([]byte(fmt.Sprintf(`"%v"`, v)))
+			err = writeString(w, fmt.Sprintf("%v", v), true)
 		}
 	}
 	return
@@ -159,14 +159,12 @@ func writeMap(w io.Writer, m map[string]interface{}, sdl bool, depth, indent int
 		if 0 < indent {
 			_, err = w.Write(i2)
 		}
-		if err == nil && !sdl {
-			_, err = w.Write([]byte{'"'})
-		}
 		if err == nil {
-			_, err = w.Write([]byte(key))
-		}
-		if err == nil && !sdl {
-			_, err = w.Write([]byte{'"'})
+			if sdl {
+				_, err = w.Write([]byte(key))
+			} else {
+				err = writeString(w, key, true)
+			}
 		}
 		if err == nil {
 			_, err = w.Write([]byte{':'})
